@@ -24,11 +24,16 @@ RULE = ("Engine 'differential': a drawn loader computation (asnumpy / average / 
         "schedule; each thread's result must equal the sequential result. All 2-thread schedules of length 8 over "
         "score are enumerated. Engine 'lazy-shape': construct_landscape(...).shape and construct_dask().shape vs the "
         "computed shape for all four models, scalar/tuple/fractional limits, upsample 1..3, multi-template and "
-        "rotation searches. Engine 'stress' (thorough only): real preemption with a 1e-6 s switch interval. "
+        "rotation searches. Engine 'preempt': two per-molecule tasks (score / align / landscape) on one shared model run in two real "
+        "threads; task A is parked at its k-th interpreter-level schedule point (sys.settrace call / return / line event of an "
+        "acryo frame), task B runs to completion, A resumes; k is enumerated over every line-level point for all four models "
+        "(cold lru caches) and strided for drawn cases (rotations, wedges, mixed operations, warm caches); both results "
+        "must equal the sequential ones bitwise. Engine 'stress' (thorough only): real preemption with a 1e-6 s switch interval. "
         "Non-trivial = >= 2 workers/threads with >= 2 tasks sharing one model, a drawn order different from "
         "submission order, or a fractional limit / upsample > 1.")
 TOLERANCES = {"loads/align/score/landscape/apply": "bitwise", "average": "1e-6 * range (reduction order)"}
 ASSUMPTIONS = ["interleavings inside C extensions (numpy, scipy.fft, polars) and free-threaded builds are not owned by the harness; only the stress engine samples them",
+               "preempt engine: one preemption per run (A..B..A); races that need two or more hand-overs inside acryo code are left to the interleave and stress engines",
                "schedule points: every access to TemplateMaskCache._dict (get / set / values iteration) and every attribute write on the shared model object"]
 
 
@@ -196,6 +201,86 @@ def judge_interleave(d):
     return out
 
 
+def _pkgdir():
+    import os
+    import acryo
+    return os.path.dirname(os.path.abspath(acryo.__file__))
+
+
+def judge_preempt(d):
+    """Two per-molecule tasks sharing one model; task A is preempted once, at an interpreter-level schedule point (call / return
+    / line event of an acryo frame), task B runs to completion, A resumes. Enumerated over the preemption points
+    d['offset'], d['offset'] + d['stride'], ... of A. Each thread's result must equal the sequential one."""
+    out = []
+    shape = tuple(d["shape"])
+    Model = get_model(d["model"])
+    tmpl = gen.smooth_noise(d["seed"], shape, sigma=0.9)
+    imgs = [gen.smooth_noise(d["seed"] + 1 + i, shape, sigma=0.9) * (1.0 + 2.0 * i) + 0.5 * i for i in range(2)]
+    kw = {}
+    if d["rots"]:
+        kw["rotations"] = Rotation.from_rotvec(np.array([[0.0, 0.0, 0.0]] + d["rots"]))
+    if d.get("tilt") is not None:
+        kw["tilt"] = tuple(d["tilt"])
+    qs = d.get("quats") or [[0.0, 0.0, 0.0]]
+    quats = [Rotation.from_rotvec(qs[i % len(qs)]).as_quat().astype(np.float32) for i in range(2)]
+    p = np.zeros(3, dtype=np.float32)
+    ms = (d["lmax"],) * 3
+
+    def task(model, op, im, q=None):
+        if op == "score":
+            return np.float64(model.score(im, q, p))
+        if op == "align":
+            r = model.align(im, ms, quaternion=q, pos=p)
+            return np.concatenate([[r.label], r.shift, r.quat, [r.score]]).astype(np.float64)
+        return np.asarray(model.landscape(im, ms, quaternion=q, pos=p), dtype=np.float64)
+
+    ops = [d["ops"][i % len(d["ops"])] for i in range(2)]
+    if d["rots"]:
+        ops = [o if o != "score" else "align" for o in ops]
+    events = ("call", "return", "line") if d["gran"] == "line" else ("call", "return")
+    pre = sched.PreemptOnce(_pkgdir(), events=events)
+    tag = f"{d['model']} ops={ops} K={1 + len(d['rots'])} shape={shape} gran={d['gran']} cold={d['cold']}"
+    with warnings.catch_warnings():
+        warnings.simplefilter("ignore")
+        seq_model = Model(tmpl, **kw)
+        want = [task(seq_model, op, im, q) for op, im, q in zip(ops, imgs, quats)]
+        # number of schedule points of task A (cold caches: the longest path)
+        sched.clear_lru_caches()
+        m0 = Model(tmpl, **kw)
+        _, _, st0 = pre.run(lambda: task(m0, ops[0], imgs[0], quats[0]), lambda: None, None)
+        npoints = st0["count"]
+        targets = list(range(1 + d["offset"] % max(1, d["stride"]), npoints + 1, max(1, d["stride"])))
+        d["_npoints"], d["_nrun"] = npoints, len(targets)
+        seen = set()
+        for t in targets:
+            if d["cold"]:
+                sched.clear_lru_caches()
+            model = Model(tmpl, **kw)
+            ra, rb, stt = pre.run(lambda: task(model, ops[0], imgs[0], quats[0]), lambda: task(model, ops[1], imgs[1], quats[1]), t)
+            for i, (status, val) in enumerate((ra, rb)):
+                if status == "err":
+                    import traceback
+                    tb = traceback.extract_tb(val.__traceback__)
+                    where = [f"{f.filename.split('/')[-1]}:{f.name}" for f in tb if "/acryo/" in f.filename]
+                    if not where:
+                        raise HarnessError("".join(traceback.format_exception(val)))
+                    sig = f"C10/error-under-preemption:{type(val).__name__}"
+                    if sig not in seen:
+                        seen.add(sig)
+                        out.append(viol(sig, f"{tag}: task {'AB'[i]} raised {type(val).__name__}: {val} at {where[-1]} when A is preempted at "
+                                        f"point {t}/{npoints} ({stt['where']}) and B runs in between"))
+                elif not np.array_equal(np.asarray(val), np.asarray(want[i]), equal_nan=True):
+                    fn = (stt["where"] or "?").split(":")
+                    sig = f"C10/result-under-preemption:{fn[0]}:{fn[1] if len(fn) > 1 else ''}"
+                    if sig not in seen:
+                        seen.add(sig)
+                        out.append(viol(sig, f"{tag}: task {'AB'[i]} differs from its sequential result when A is preempted at point {t}/{npoints} "
+                                        f"({stt['where']}) and B runs in between"))
+            if len(out) >= 3:
+                break
+    return out
+
+
 def judge_shape(d):
     from acryo import SubtomogramLoader, Molecules
 
@@ -312,6 +397,30 @@ def all_two_thread_schedules(tier):
 
 
 @st.composite
+def preempt_cases(draw, stride_max=40):
+    d = draw(base_case())
+    d["shape"] = draw(gen.box_shapes(5, 8))
+    d.update({"ops": draw(st.lists(st.sampled_from(["score", "align", "align", "landscape"]), min_size=1, max_size=2)),
+              "quats": [draw(gen.rotvecs())["rv"] for _ in range(draw(st.integers(1, 2)))],
+              "gran": draw(st.sampled_from(["call", "call", "line"])), "cold": draw(st.booleans()),
+              "stride": draw(st.integers(1, stride_max)), "offset": draw(st.integers(0, 1000))})
+    if len(d["rots"]) > 1:
+        d["rots"] = d["rots"][:1]
+    return d
+
+
+def all_preemption_points(tier):
+    """every line-level preemption point of task A, for each model and each pair of equal operations (4 residue classes each)."""
+    shapes = [[6, 6, 6]] if tier == "quick" else [[6, 6, 6], [5, 6, 7]]
+    for shape in shapes:
+        for model in ["ZNCC", "NCC", "PCC", "FSC"]:
+            for ops in (["score"], ["align"], ["landscape"]) + (() if tier == "quick" else (["align", "landscape"], ["landscape", "score"])):
+                for off in range(4):
+                    yield {"model": model, "shape": shape, "seed": 3, "scale": 1.0, "order": 1, "rots": [], "tilt": None, "lmax": 1.0, "upsample": 1,
+                           "ops": ops, "quats": [[0.0, 0.0, 0.3]], "gran": "line", "cold": True, "stride": 4, "offset": off}
+
+
+@st.composite
 def shape_cases(draw):
     d = draw(base_case())
     form = draw(st.sampled_from(["scalar", "tuple"]))
@@ -348,6 +457,10 @@ def engines():
                nontrivial=lambda d: d["nthreads"] >= 2,
                labels=lambda d: [f"model:{d['model']}", f"threads:{d['nthreads']}"] + [f"op:{o}" for o in d["ops"]],
                cases={"quick": 150, "thorough": 6000}, shards={"quick": 8, "thorough": 16}, shrink={"quick": False, "thorough": True}),
+        Engine("preempt", judge_preempt, strategy=preempt_cases(), enumerate=all_preemption_points,
+               nontrivial=lambda d: d.get("_nrun", 1) >= 1,
+               labels=lambda d: [f"model:{d['model']}", f"gran:{d['gran']}", "cold" if d["cold"] else "warm", f"K:{1 + len(d['rots'])}"] + [f"op:{o}" for o in d["ops"]],
+               cases={"quick": 24, "thorough": 800}, shards={"quick": 12, "thorough": 16}, shrink={"quick": False, "thorough": False}),
         Engine("lazy-shape", judge_shape, strategy=shape_cases(),
                nontrivial=lambda d: d["upsample"] > 1 or any(abs(m - round(m)) > 1e-9 for m in d["max_shifts"]),
                labels=lambda d: [f"model:{d['model']}", f"upsample:{d['upsample']}", f"form:{d['ms_form']}", "multi" if d["multi"] else "single", f"K:{1 + len(d['rots'])}"],
